@@ -60,6 +60,10 @@ def check(run):
     C05.awaitables_fresh(R, RID='C17.closure')     # read requests are per read, not module / parser-lifetime objects
     from .common import oneshot_fields
     oneshot_fields(R, 'C17.closure')
+    from . import C16 as _C16, C08 as _C08
+    _C16.connect_at_loop(R, 'C17.reset')         # persist() resets the object when the new attempt starts, not before
+    with R.as_rule('C17.owner'):
+        _C08.writers(R)          # the old session's loop does not write the (new) State: on_disconnect only from feed()
     from . import C09 as _C09
     with R.as_rule('C17.session'):
         _C09.tryall(R)           # every connect() resolves the host again and walks the addresses it got (no address memo)               # what a second connect() reads again can be read again
